@@ -142,6 +142,11 @@ pub fn run_property(prop: &str, tier: &str, threads: usize, budget: &Budget, fin
             bfs(&env, report, &share, Roots::Seeds, dsh, props, true);
             bfs(&env, report, &statics, Roots::Empty, dst, props, true);
             bfs(&env, report, &inline, Roots::Empty, dinl, props, true);
+            let sp = sweeps::sweep_profile();
+            let stats = ProbeStats::default();
+            let scx = SweepCtx { prof: &sp, findings, stats: &stats };
+            sweeps::c01_sweep(&scx, quick, threads);
+            report.add_probe(stats.to_json("single-operation sweep: every 16th byte, long texts", 0, true));
         }
         "C02" => {
             report.rule = "same graph as C01 incl. failing and panicking operations; oracle: every handle that is not the target of the step is bit-identical (text, length, pointer, capacity, raw words) before and after; 'static bytes pristine; sentinels around every handle intact".into();
@@ -498,6 +503,7 @@ pub fn reproduce(prop: &str, sig: &str, profile: &str, history: &[String], extra
         let scx = SweepCtx { prof: &sp, findings: &findings, stats: &stats };
         let threads = std::thread::available_parallelism().map(|n| n.get()).unwrap_or(4);
         match prop {
+            "C01" => sweeps::c01_sweep(&scx, quick, threads),
             "C07" => sweeps::c07_text_sweep(&scx, quick, threads),
             "C08" => sweeps::c08_sweep(&scx, quick, threads),
             "C09" => sweeps::c09_sweep(&scx, quick, threads),
